@@ -16,6 +16,7 @@ fn registry() -> Vec<(&'static str, MainFn, ReplayFn)> {
         ("C08", props::c08::main as MainFn, props::c08::replay as ReplayFn),
         ("C09", props::c09::main as MainFn, props::c09::replay as ReplayFn),
         ("C10", props::c10::main as MainFn, props::c10::replay as ReplayFn),
+        ("C11", props::c11::main as MainFn, props::c11::replay as ReplayFn),
     ]
 }
 
